@@ -405,6 +405,17 @@ func (f *Frame) havocCall(st *State, pre *State, mods *ModSet, targets []*Assign
 		}
 		guard := And(Lt(r, pre.alloc), Not(Or(exc...)))
 		vc.fact(Forall([]Term{r}, Imp(guard, Eq(Select(nw, r), Select(old, r))), []Term{Select(nw, r)}))
+		if len(exc) > 0 {
+			st.markDirty(k)
+		} else if !st.dirty[k] {
+			// k has not been written at pre-existing objects since function
+			// entry: relate the new version directly to the entry version
+			// (shortens frame chains across many calls)
+			ent := vc.get(f.rootFrame().entry, k)
+			if ent.S != old.S {
+				vc.fact(Forall([]Term{r}, Imp(Lt(r, vc.A0), Eq(Select(nw, r), Select(ent, r))), []Term{Select(nw, r)}))
+			}
+		}
 	}
 	if mods.alloc {
 		a := vc.fresh("A", SInt)
